@@ -2164,6 +2164,12 @@ class RibCSFamily:
         for s0, items in list(byseg.items())[:3]:
             ln, ev, mine = items[0]
             evs = segs.lines(s0, ln)
+            if ev == "csrv":
+                e = evs[-1]
+                rp = os.path.join(vlib.ROOT, "replays", f"{self.prop}-ribcs-{vlib.sha(json.dumps(e, sort_keys=True))}.json")
+                json.dump({"property": self.prop, "family": self.FAMILY, "seed": ctx.seed, "tier": ctx.tier, "components": mine, "event": e}, open(rp, "w"), indent=1)
+                res.violations.append({"replay": rp, "what": f"two Modify sessions whose RIB calls overlap (s1's handler parked at add.checked while s2 takes over and deletes the group): {mine}; {e.get('err')} {e.get('blocked')}"})
+                continue
             rp = os.path.join(vlib.ROOT, "replays", f"{self.prop}-ribcs-{vlib.sha(json.dumps(evs, sort_keys=True))}.json")
             json.dump({"property": self.prop, "family": self.FAMILY, "seed": ctx.seed, "tier": ctx.tier,
                        "first_deviation": {"trace_line": ln, "event": ev, "components": mine},
@@ -2176,6 +2182,7 @@ class RibCSFamily:
         anom = collections.Counter()
         nontriv = 0
         sample = []
+        via_server = None
         with open(trace) as fh:
             seen_callers, hit = set(), False
             for line in fh:
@@ -2191,6 +2198,8 @@ class RibCSFamily:
                         inflight.discard(e["c"])
                     if len(sample) < 12 and nontriv == 0:
                         sample.append({k: e.get(k) for k in ("c", "a", "site")})
+                elif e["ev"] == "csrv":
+                    via_server = {k: e.get(k) for k in ("ok", "acks1", "acks2", "err")}
                 elif e["ev"] == "cend":
                     if hit:
                         nontriv += 1
@@ -2200,6 +2209,7 @@ class RibCSFamily:
             "states": states, "transitions": trans, "exhaustive": False, "traces_validated_against_impl": len(segs.starts), "evaluations": total,
             "distinct_nontrivial": nontriv, "tlc_exhaustive_schedules": nexh, "tlc_emitted_schedules": len(walks),
             "schedules_ending_in_a_state_the_specification_itself_flags": dict(anom), "schedules_not_realisable": unreal,
+            "dangling_entry_scenario_through_two_modify_sessions": via_server,
             "rule": ("one case = one interleaving of the gate-to-gate segments of 2-3 goroutines calling AddEntry / DeleteEntry / Flush / AddNetworkInstance on one real "
                      "rib.RIB, generated by TLC from GribiRIBCS_MC and replayed through the gates of rib/rib.go; after every segment the tables, reference counters, held "
                      "operations, gate reached and call result are compared with the specification; non-trivial = some call ran a segment while another was parked inside its own call"),
